@@ -294,7 +294,8 @@ brace_instance!(c13_brace_default_a, "{_Default,A}", [1, 0, 1, 0]);
 // @verif prop=C13 tier=quick timeout=600 bounds=target{X,A}
 // {X,A}: unknown name reported, delivery to A undisturbed.
 brace_instance!(c13_brace_unknown_a, "{X,A}", [1, 0, 0, 1]);
-// @verif prop=C13 tier=thorough timeout=900 bounds=target{A,X,_Default}
+// @verif prop=C13 tier=probe timeout=900 bounds=target{A,X,_Default}
+// NOT REGISTERED (false alarm of the encoding, session 3): on the unchanged tree CBMC reports "rust_dealloc must be called on an object whose allocated size matches its layout" for the drop of the String that the (stubbed, capacity-0) format! of the "bad writer spec" message returns - a free that safe Rust cannot get wrong (the crate is #![forbid(unsafe_code)], the String is std's own) and that the two-token instances {X,A} / {B,A,B} of the same code pass. Same family as the C12 alarm (DESIGN.md 6 vii): spurious allocation checks once three list tokens merge the state. Removed from the thorough tier rather than silenced; the clause "unknown names do not disturb delivery" stays decided by c13_brace_unknown and c13_brace_unknown_a.
 // Three tokens: {A,X,_Default}.
 brace_instance!(c13_brace_a_unknown_default, "{A,X,_Default}", [1, 0, 1, 1]);
 // @verif prop=C13 tier=thorough timeout=900 bounds=target{B,A,B}
